@@ -1,6 +1,8 @@
 //! Checks that need the feature-guarded hooks of scnr (feature `verif`).
 mod c02c03;
 mod e1;
+mod e3;
+mod hist;
 
 use refsem::evidence::{machinery, parse_args};
 
@@ -10,6 +12,10 @@ fn main() {
     match prop.as_str() {
         "C02" => c02c03::run("C02", tier),
         "C03" => c02c03::run("C03", tier),
+        "C06" => hist::run("C06", tier),
+        "C09" => hist::run("C09", tier),
+        "C10" => hist::run("C10", tier),
+        "C11" => hist::run("C11", tier),
         p => machinery(&format!("hookcheck does not know property {p}")),
     }
 }
